@@ -47,6 +47,7 @@ type c19Case struct {
 	Input string   `json:"input"` // name of the input encoding
 	In    []pRec   `json:"in"`
 	Mode  string   `json:"mode"` // "template" | "manual" | "bitor"
+	In2   []pRec   `json:"in2,omitempty"` // another input of the same message, rewritten in between (reuse of the Rewriter)
 }
 
 func tagged(shape []pField) bool { return len(shape) > 0 && shape[0].N != 0 }
@@ -436,6 +437,30 @@ func c19Run(c *Ctx, k c19Case) {
 			fail("Rewriter.Rewrite(untouched fields)", a, b, finding)
 		}
 	}
+	// the Rewriter is reused: an earlier result keeps its bytes, and the same input gives the same output again
+	// (a template that was modified, or shares memory with a result, shows here)
+	outSnap := append([]byte(nil), out...)
+	in2 := l.encodeRecs(k.In2, wireOpts{})
+	for round := 0; round < 2; round++ {
+		var out2, out3 []byte
+		var err3 error
+		if p := protect(func() {
+			out2, _ = rw.Rewrite(nil, in2)
+			out3, err3 = rw.Rewrite(nil, in)
+		}); p != "" {
+			fail("Rewriter.Rewrite(reused)", "no panic", p, "")
+			return
+		}
+		_ = out2
+		if !bytes.Equal(out, outSnap) {
+			fail("Rewriter.Rewrite(reused)", "an earlier result unchanged by later calls: "+hex.EncodeToString(outSnap), hex.EncodeToString(out), "")
+			return
+		}
+		if err3 != nil || !bytes.Equal(out3, outSnap) {
+			fail("Rewriter.Rewrite(reused)", "the same output for the same input: "+hex.EncodeToString(outSnap), fmt.Sprintf("%x err=%v", out3, err3), "")
+			return
+		}
+	}
 	// neither the input nor the template is modified
 	if !bytes.Equal(in, inSnap) {
 		fail("Rewriter.Rewrite(input)", "input unchanged", "input modified", "")
@@ -632,11 +657,15 @@ func c19Vector(c *Ctx, raw stdjson.RawMessage) {
 			return
 		}
 		for name, in := range v.Inputs {
+			in2 := v.Inputs["reordered"]
+			if name == "reordered" {
+				in2 = v.Inputs["unknown"]
+			}
 			c.Case()
-			c19Run(c, c19Case{Shape: v.Shape, Val: v.Val, Tmpl: v.Tmpl, Want: v.Want, Salt: salt, Input: name, In: in, Mode: "template"})
+			c19Run(c, c19Case{Shape: v.Shape, Val: v.Val, Tmpl: v.Tmpl, Want: v.Want, Salt: salt, Input: name, In: in, In2: in2, Mode: "template"})
 			if manualOK(v.Shape, v.Tmpl, v.Val) {
 				c.Case()
-				c19Run(c, c19Case{Shape: v.Shape, Val: v.Val, Tmpl: v.Tmpl, Want: v.Want, Salt: salt, Input: name, In: in, Mode: "manual"})
+				c19Run(c, c19Case{Shape: v.Shape, Val: v.Val, Tmpl: v.Tmpl, Want: v.Want, Salt: salt, Input: name, In: in, In2: in2, Mode: "manual"})
 			}
 		}
 	}
